@@ -864,3 +864,34 @@ fn test_half_radix_bases() {
         }
     }
 }
+
+#[cfg(num_bigint_verif)]
+pub mod verif {
+    //! Verification-only wrappers around private functions.
+    use super::BigUint;
+    use alloc::vec::Vec;
+    pub fn high_bits_to_u64(v: &BigUint) -> u64 {
+        super::high_bits_to_u64(v)
+    }
+    pub fn from_bitwise_digits_le(v: &[u8], bits: u8) -> BigUint {
+        super::from_bitwise_digits_le(v, bits)
+    }
+    pub fn from_inexact_bitwise_digits_le(v: &[u8], bits: u8) -> BigUint {
+        super::from_inexact_bitwise_digits_le(v, bits)
+    }
+    pub fn from_radix_digits_be(v: &[u8], radix: u32) -> BigUint {
+        super::from_radix_digits_be(v, radix)
+    }
+    pub fn to_bitwise_digits_le(u: &BigUint, bits: u8) -> Vec<u8> {
+        super::to_bitwise_digits_le(u, bits)
+    }
+    pub fn to_inexact_bitwise_digits_le(u: &BigUint, bits: u8) -> Vec<u8> {
+        super::to_inexact_bitwise_digits_le(u, bits)
+    }
+    pub fn to_radix_digits_le(u: &BigUint, radix: u32) -> Vec<u8> {
+        super::to_radix_digits_le(u, radix)
+    }
+    pub fn get_radix_base(radix: u32) -> (u64, usize) {
+        super::get_radix_base(radix)
+    }
+}
